@@ -126,6 +126,11 @@ func evalExecBlock(vm *r.VM, execBlock *syntax.ExecBlock, params []r.Element) (r
 	if stmtBlockErr != nil {
 		return handleExceptionSignal(vm, blockModule, execBlock.CatchBlock, stmtBlockErr)
 	}
+	// a body without any executable statement (e.g. only nested definitions) yields 空,
+	// never a nil element
+	if rtnValue == nil {
+		rtnValue = value.NewNull()
+	}
 
 	return rtnValue, stmtBlockErr
 }
